@@ -47,8 +47,20 @@ def case(ctx, i):
             continue
         if res.rc != 0 or res.stdout.strip():
             feat = wl.report_feature(res.stdout)
-            # reports about anonymous types in compound positions form one family whatever the edit was
-            r.violate("oracle:C06:reported:%s:%s" % ("any-edit" if wl.anonymous_markers(res.stdout) else "+".join(sorted({e.kind for e in pr.expects})), feat),
+            fam = bool(wl.anonymous_markers(res.stdout))
+            if res.rc == 0:
+                # only a "(N filtered out)" summary: look at what was filtered
+                full = wl.tool_run(ctx, "abidiff", ["--harmless", "--redundant", a, b], d)
+                if not run.abnormal(full):
+                    import re
+                    if re.search(r"'const volatile void' changed to 'volatile void'|'volatile void' changed to 'const volatile void'", full.stdout):
+                        feat += "+cv-void-normalisation"
+                        fam = True
+                    elif wl.anonymous_markers(full.stdout):
+                        feat += "+" + "+".join(wl.anonymous_markers(full.stdout))
+                        fam = True
+            # reports about anonymous types in compound positions (or the cv-void normalisation) form one family whatever the edit was
+            r.violate("oracle:C06:reported:%s:%s" % ("any-edit" if fam else "+".join(sorted({e.kind for e in pr.expects})), feat),
                       "neutral edit reported (exit %s, %d bytes of report) for %s" % (res.rc, len(res.stdout), what), run=res.brief())
     for e in pr.expects:
         r.add("rewrite_kinds", e.kind)
